@@ -96,17 +96,11 @@ pub mod w16 {
       pub struct Prog;
       relation r0(i64, i64);
       relation r1(i64);
-      relation r2(i64, i64, i64);
-      lattice r3(Set<i64>);
-      lattice r4(i64, Option<i64>);
-      r3(Set::singleton((*v1))) <-- r2(v0, 1, v1) if ((*v1) < 4);
-      r3(v0) <-- r3(v0), r1(v1);
-      r4(v0, Some((*v0))) <-- r1(v0);
-      r4(v0, Some((*v2))) <-- r4(v0, v1), r0(v2, v3);
-      r0(v1, v3) <-- r0(v0, v1) if ((*v0) < 3), r0(v2, v3) if ((*v2) < 3);
-      r4(1, None) <-- r4(v0, v1), r4(v2, v3);
-      r2(((*v0) + 1), v0, v0) <-- r1(v0), r3(v1), if ((*v0) < 6);
-      r4(1, Some(1)) <-- r3(v0);
+      relation r2(i64, i64);
+      relation r3(i64);
+      relation r4(i64, i64);
+      r4(v0, v8) <-- if let Some(v9) = Some(2), r0(v0, v1), r4(v1, v9) let v8 = ((*v0) + 1);
+      r3(0) <-- if let Some(v0) = Some(2), r4(v0, v1) if ((*v1) <= 1), r0(v0, v0), r1(v2);
    }
    pub struct Inst { p: Prog, pool: Option<ascent::rayon::ThreadPool> }
    pub fn make(pool: Option<usize>) -> Box<dyn Driver> {
@@ -119,9 +113,248 @@ pub mod w16 {
          match rel {
          0 => { let v: Vec<(i64,i64,)> = parse_rows(rows)?; if !append { self.p.r0 = Default::default(); } for x in v { self.p.r0.push(x); } },
          1 => { let v: Vec<(i64,)> = parse_rows(rows)?; if !append { self.p.r1 = Default::default(); } for x in v { self.p.r1.push(x); } },
+         2 => { let v: Vec<(i64,i64,)> = parse_rows(rows)?; if !append { self.p.r2 = Default::default(); } for x in v { self.p.r2.push(x); } },
+         3 => { let v: Vec<(i64,)> = parse_rows(rows)?; if !append { self.p.r3 = Default::default(); } for x in v { self.p.r3.push(x); } },
+         4 => { let v: Vec<(i64,i64,)> = parse_rows(rows)?; if !append { self.p.r4 = Default::default(); } for x in v { self.p.r4.push(x); } },
+            _ => return None,
+         }
+         Some(())
+      }
+      fn run(&mut self) { match &self.pool { Some(pl) => { let p = &mut self.p; pl.install(|| p.run()) }, None => self.p.run() } }
+      fn run_here(&mut self) { self.p.run() }
+      fn run_timeout(&mut self, k: usize) -> Option<bool> { let _ = k; None }
+      fn dump(&self) -> String { vec![dump_rel(0, self.p.r0.iter().map(|x| x.render()).collect()), dump_rel(1, self.p.r1.iter().map(|x| x.render()).collect()), dump_rel(2, self.p.r2.iter().map(|x| x.render()).collect()), dump_rel(3, self.p.r3.iter().map(|x| x.render()).collect()), dump_rel(4, self.p.r4.iter().map(|x| x.render()).collect())].join(" | ") }
+      fn iters(&self) -> String { format!("iters {}", self.p.scc_iters.iter().map(|x| x.to_string()).collect::<Vec<_>>().join(" ")) }
+   }
+}
+
+#[allow(unused, non_snake_case, clippy::all)]
+pub mod w24 {
+   use ascent::*;
+   use ascent::aggregators::*;
+   use ascent::lattice::{Dual, set::Set};
+   use crate::common::*;
+   ascent_par! {
+      pub struct Prog;
+      relation r0(i64);
+      relation r1(i64, i64);
+      relation r2(i64, i64, i64);
+      relation r3(i64);
+      relation r4(i64, i64);
+      relation r5(i64, i64, i64);
+      r4(1, 3) <-- r0(2);
+      r4(v0, v2) <-- r4(v0, v1), if ((*v0) <= 2), r4(v1, v2), if ((*v0) == 2);
+      r5(v0, v1, v9) <-- let v9 = 3, r4(v0, v1), r1(v1, v9);
+      r1(v0, v1) <-- r4(v0, v1), r1(((*v0) + 1), v2);
+      r3(v1) <-- r4(v0, v1), let v2 = (*v1);
+   }
+   pub struct Inst { p: Prog, pool: Option<ascent::rayon::ThreadPool> }
+   pub fn make(pool: Option<usize>) -> Box<dyn Driver> {
+      let pool = pool.map(|n| ascent::rayon::ThreadPoolBuilder::new().num_threads(n).build().unwrap());
+      let p = match &pool { Some(pl) => pl.install(|| Default::default()), None => Default::default() };
+      Box::new(Inst { p, pool })
+   }
+   impl Driver for Inst {
+      fn load(&mut self, rel: usize, rows: &[Sexp], append: bool) -> Option<()> {
+         match rel {
+         0 => { let v: Vec<(i64,)> = parse_rows(rows)?; if !append { self.p.r0 = Default::default(); } for x in v { self.p.r0.push(x); } },
+         1 => { let v: Vec<(i64,i64,)> = parse_rows(rows)?; if !append { self.p.r1 = Default::default(); } for x in v { self.p.r1.push(x); } },
          2 => { let v: Vec<(i64,i64,i64,)> = parse_rows(rows)?; if !append { self.p.r2 = Default::default(); } for x in v { self.p.r2.push(x); } },
-         3 => { let v: Vec<(Set<i64>,)> = parse_rows(rows)?; if !append { self.p.r3 = Default::default(); } for x in v { self.p.r3.push(std::sync::RwLock::new(x)); } },
-         4 => { let v: Vec<(i64,Option<i64>,)> = parse_rows(rows)?; if !append { self.p.r4 = Default::default(); } for x in v { self.p.r4.push(std::sync::RwLock::new(x)); } },
+         3 => { let v: Vec<(i64,)> = parse_rows(rows)?; if !append { self.p.r3 = Default::default(); } for x in v { self.p.r3.push(x); } },
+         4 => { let v: Vec<(i64,i64,)> = parse_rows(rows)?; if !append { self.p.r4 = Default::default(); } for x in v { self.p.r4.push(x); } },
+         5 => { let v: Vec<(i64,i64,i64,)> = parse_rows(rows)?; if !append { self.p.r5 = Default::default(); } for x in v { self.p.r5.push(x); } },
+            _ => return None,
+         }
+         Some(())
+      }
+      fn run(&mut self) { match &self.pool { Some(pl) => { let p = &mut self.p; pl.install(|| p.run()) }, None => self.p.run() } }
+      fn run_here(&mut self) { self.p.run() }
+      fn run_timeout(&mut self, k: usize) -> Option<bool> { let _ = k; None }
+      fn dump(&self) -> String { vec![dump_rel(0, self.p.r0.iter().map(|x| x.render()).collect()), dump_rel(1, self.p.r1.iter().map(|x| x.render()).collect()), dump_rel(2, self.p.r2.iter().map(|x| x.render()).collect()), dump_rel(3, self.p.r3.iter().map(|x| x.render()).collect()), dump_rel(4, self.p.r4.iter().map(|x| x.render()).collect()), dump_rel(5, self.p.r5.iter().map(|x| x.render()).collect())].join(" | ") }
+      fn iters(&self) -> String { format!("iters {}", self.p.scc_iters.iter().map(|x| x.to_string()).collect::<Vec<_>>().join(" ")) }
+   }
+}
+
+#[allow(unused, non_snake_case, clippy::all)]
+pub mod w32 {
+   use ascent::*;
+   use ascent::aggregators::*;
+   use ascent::lattice::{Dual, set::Set};
+   use crate::common::*;
+   ascent_par! {
+      pub struct Prog;
+      relation r0(i64, i64);
+      relation r1(i64, i64);
+      relation r2(i64, i64);
+      relation r3(i64, i64);
+      relation r4(i64, i64);
+      relation r5(i64, i64);
+      r2(v0, v0) <-- for v0 in 0..1, r0(2, (v0 + 0)) if (v0 <= 3);
+      r3(v0, ((*v0) + 1)) <-- r0(v0, v1) if ((*v1) < 4), if ((*v0) < 6);
+      r4(((*v0) + 1), ((*v2) + 1)) <-- r2(v0, v1), r3(((*v0) + 0), v2), if let Some(v3) = Some(std::cmp::max((*v2), 3)), if ((*v0) < 6), if ((*v2) < 6);
+      r3(v0, v1) <-- r2(v0, v1), r0(v0, v0), r2(v1, v2);
+      r4(v0, 0) <-- r3(v0, 1);
+      r3(3, 3);
+      r5(((*v0) + 1), v0) <-- r5(1, v0), r4(v0, v0), r2(v0, v0), if ((*v0) < 6);
+      r3(((*v1) + 1), v2) <-- if let Some(v0) = Some(2), r3(v0, v1), if (v0 <= 3), r3((v0 + 1), v2), if ((*v1) < 6);
+   }
+   pub struct Inst { p: Prog, pool: Option<ascent::rayon::ThreadPool> }
+   pub fn make(pool: Option<usize>) -> Box<dyn Driver> {
+      let pool = pool.map(|n| ascent::rayon::ThreadPoolBuilder::new().num_threads(n).build().unwrap());
+      let p = match &pool { Some(pl) => pl.install(|| Default::default()), None => Default::default() };
+      Box::new(Inst { p, pool })
+   }
+   impl Driver for Inst {
+      fn load(&mut self, rel: usize, rows: &[Sexp], append: bool) -> Option<()> {
+         match rel {
+         0 => { let v: Vec<(i64,i64,)> = parse_rows(rows)?; if !append { self.p.r0 = Default::default(); } for x in v { self.p.r0.push(x); } },
+         1 => { let v: Vec<(i64,i64,)> = parse_rows(rows)?; if !append { self.p.r1 = Default::default(); } for x in v { self.p.r1.push(x); } },
+         2 => { let v: Vec<(i64,i64,)> = parse_rows(rows)?; if !append { self.p.r2 = Default::default(); } for x in v { self.p.r2.push(x); } },
+         3 => { let v: Vec<(i64,i64,)> = parse_rows(rows)?; if !append { self.p.r3 = Default::default(); } for x in v { self.p.r3.push(x); } },
+         4 => { let v: Vec<(i64,i64,)> = parse_rows(rows)?; if !append { self.p.r4 = Default::default(); } for x in v { self.p.r4.push(x); } },
+         5 => { let v: Vec<(i64,i64,)> = parse_rows(rows)?; if !append { self.p.r5 = Default::default(); } for x in v { self.p.r5.push(x); } },
+            _ => return None,
+         }
+         Some(())
+      }
+      fn run(&mut self) { match &self.pool { Some(pl) => { let p = &mut self.p; pl.install(|| p.run()) }, None => self.p.run() } }
+      fn run_here(&mut self) { self.p.run() }
+      fn run_timeout(&mut self, k: usize) -> Option<bool> { let _ = k; None }
+      fn dump(&self) -> String { vec![dump_rel(0, self.p.r0.iter().map(|x| x.render()).collect()), dump_rel(1, self.p.r1.iter().map(|x| x.render()).collect()), dump_rel(2, self.p.r2.iter().map(|x| x.render()).collect()), dump_rel(3, self.p.r3.iter().map(|x| x.render()).collect()), dump_rel(4, self.p.r4.iter().map(|x| x.render()).collect()), dump_rel(5, self.p.r5.iter().map(|x| x.render()).collect())].join(" | ") }
+      fn iters(&self) -> String { format!("iters {}", self.p.scc_iters.iter().map(|x| x.to_string()).collect::<Vec<_>>().join(" ")) }
+   }
+}
+
+#[allow(unused, non_snake_case, clippy::all)]
+pub mod w40 {
+   use ascent::*;
+   use ascent::aggregators::*;
+   use ascent::lattice::{Dual, set::Set};
+   use crate::common::*;
+   ascent_par! {
+      pub struct Prog;
+      relation r0(i64, i64);
+      relation r1(i64, i64, i64);
+      lattice r2(i64, Option<i64>);
+      lattice r3(i64);
+      r2(v0, Some((*v0))) <-- r1(v0, 2, v0);
+      r2(v0, v1) <-- r2(v0, v1), r0(v2, v3);
+      r3((*v0)) <-- r0(0, v0);
+      r3(std::cmp::min(((*v1) + 0), 6)) <-- r3(v0), r3(v1);
+      r0(v0, v0) <-- r0(v0, v0), r2(v0, v1) if ((*v0) < 3);
+      r2(1, Some(0)) <-- r3(v0), r3(v1);
+      r3((*v0)) <-- r2(v0, v1);
+   }
+   pub struct Inst { p: Prog, pool: Option<ascent::rayon::ThreadPool> }
+   pub fn make(pool: Option<usize>) -> Box<dyn Driver> {
+      let pool = pool.map(|n| ascent::rayon::ThreadPoolBuilder::new().num_threads(n).build().unwrap());
+      let p = match &pool { Some(pl) => pl.install(|| Default::default()), None => Default::default() };
+      Box::new(Inst { p, pool })
+   }
+   impl Driver for Inst {
+      fn load(&mut self, rel: usize, rows: &[Sexp], append: bool) -> Option<()> {
+         match rel {
+         0 => { let v: Vec<(i64,i64,)> = parse_rows(rows)?; if !append { self.p.r0 = Default::default(); } for x in v { self.p.r0.push(x); } },
+         1 => { let v: Vec<(i64,i64,i64,)> = parse_rows(rows)?; if !append { self.p.r1 = Default::default(); } for x in v { self.p.r1.push(x); } },
+         2 => { let v: Vec<(i64,Option<i64>,)> = parse_rows(rows)?; if !append { self.p.r2 = Default::default(); } for x in v { self.p.r2.push(std::sync::RwLock::new(x)); } },
+         3 => { let v: Vec<(i64,)> = parse_rows(rows)?; if !append { self.p.r3 = Default::default(); } for x in v { self.p.r3.push(std::sync::RwLock::new(x)); } },
+            _ => return None,
+         }
+         Some(())
+      }
+      fn run(&mut self) { match &self.pool { Some(pl) => { let p = &mut self.p; pl.install(|| p.run()) }, None => self.p.run() } }
+      fn run_here(&mut self) { self.p.run() }
+      fn run_timeout(&mut self, k: usize) -> Option<bool> { let _ = k; None }
+      fn dump(&self) -> String { vec![dump_rel(0, self.p.r0.iter().map(|x| x.render()).collect()), dump_rel(1, self.p.r1.iter().map(|x| x.render()).collect()), dump_rel(2, self.p.r2.iter().map(|x| x.read().unwrap().render()).collect()), dump_rel(3, self.p.r3.iter().map(|x| x.read().unwrap().render()).collect())].join(" | ") }
+      fn iters(&self) -> String { format!("iters {}", self.p.scc_iters.iter().map(|x| x.to_string()).collect::<Vec<_>>().join(" ")) }
+   }
+}
+
+#[allow(unused, non_snake_case, clippy::all)]
+pub mod w48 {
+   use ascent::*;
+   use ascent::aggregators::*;
+   use ascent::lattice::{Dual, set::Set};
+   use crate::common::*;
+   ascent_par! {
+      pub struct Prog;
+      relation r0(i64, i64);
+      relation r1(i64, i64, i64);
+      lattice r2(i64, i64, Dual<i64>);
+      lattice r3(i64, Set<i64>);
+      r2(v0, v0, Dual((*v0))) <-- r0(v0, v0);
+      r2(v2, v3, Dual(((v1.0) + 3))) <-- r2(v0, 3, v1), r0(v2, v3);
+      r2(v0, v0, v2) <-- r2(v0, v0, v1), r2(v0, v0, v2);
+      r3(v0, Set::singleton((*v1))) <-- r0(v0, v1);
+      r3(v1, v2) <-- r3(v0, v2), r0(v0, v1);
+      r3(v0, Set::singleton((*v0))) <-- r0(v0, v0);
+      r3(v1, v0) <-- r3(0, v0), r0(v1, v1) if ((*v1) < 4);
+      r3(((*v2) + 1), Set::singleton(3)) <-- r3(v0, v1), r3(v2, v3), if ((*v2) < 6);
+      r1(0, v0, v0) <-- r2(v0, 3, v1), r3(v0, v2);
+      r2(v0, v1, Dual((*v1))) <-- r1(v0, v0, v1);
+      r2(v0, v1, Dual((*v1))) <-- r2(v0, v1, v2);
+      r3(v0, Set::singleton((*v0))) <-- r2(v0, v1, v2) if ((*v0) < 5);
+   }
+   pub struct Inst { p: Prog, pool: Option<ascent::rayon::ThreadPool> }
+   pub fn make(pool: Option<usize>) -> Box<dyn Driver> {
+      let pool = pool.map(|n| ascent::rayon::ThreadPoolBuilder::new().num_threads(n).build().unwrap());
+      let p = match &pool { Some(pl) => pl.install(|| Default::default()), None => Default::default() };
+      Box::new(Inst { p, pool })
+   }
+   impl Driver for Inst {
+      fn load(&mut self, rel: usize, rows: &[Sexp], append: bool) -> Option<()> {
+         match rel {
+         0 => { let v: Vec<(i64,i64,)> = parse_rows(rows)?; if !append { self.p.r0 = Default::default(); } for x in v { self.p.r0.push(x); } },
+         1 => { let v: Vec<(i64,i64,i64,)> = parse_rows(rows)?; if !append { self.p.r1 = Default::default(); } for x in v { self.p.r1.push(x); } },
+         2 => { let v: Vec<(i64,i64,Dual<i64>,)> = parse_rows(rows)?; if !append { self.p.r2 = Default::default(); } for x in v { self.p.r2.push(std::sync::RwLock::new(x)); } },
+         3 => { let v: Vec<(i64,Set<i64>,)> = parse_rows(rows)?; if !append { self.p.r3 = Default::default(); } for x in v { self.p.r3.push(std::sync::RwLock::new(x)); } },
+            _ => return None,
+         }
+         Some(())
+      }
+      fn run(&mut self) { match &self.pool { Some(pl) => { let p = &mut self.p; pl.install(|| p.run()) }, None => self.p.run() } }
+      fn run_here(&mut self) { self.p.run() }
+      fn run_timeout(&mut self, k: usize) -> Option<bool> { let _ = k; None }
+      fn dump(&self) -> String { vec![dump_rel(0, self.p.r0.iter().map(|x| x.render()).collect()), dump_rel(1, self.p.r1.iter().map(|x| x.render()).collect()), dump_rel(2, self.p.r2.iter().map(|x| x.read().unwrap().render()).collect()), dump_rel(3, self.p.r3.iter().map(|x| x.read().unwrap().render()).collect())].join(" | ") }
+      fn iters(&self) -> String { format!("iters {}", self.p.scc_iters.iter().map(|x| x.to_string()).collect::<Vec<_>>().join(" ")) }
+   }
+}
+
+#[allow(unused, non_snake_case, clippy::all)]
+pub mod w56 {
+   use ascent::*;
+   use ascent::aggregators::*;
+   use ascent::lattice::{Dual, set::Set};
+   use crate::common::*;
+   ascent_par! {
+      pub struct Prog;
+      relation r0(i64, i64);
+      relation r1(i64, i64, i64);
+      relation r2(i64, i64);
+      lattice r3(i64, Dual<i64>);
+      lattice r4(i64, i64, Dual<i64>);
+      r3(3, Dual(0)) <-- r2(v0, v0);
+      r3(v2, Dual(0)) <-- r3(v0, v1), r3(v2, v3);
+      r4(v0, v0, Dual((*v1))) <-- r0(v0, v1);
+      r4(v0, v0, v1) <-- r4(2, v0, v1), r0(v0, v2);
+      r0(v1, v0) <-- r2(v0, v1), r4(v1, v2, v3) if ((*v0) < 2);
+      r0(v0, v0) <-- r0(v0, 2);
+      r0(v0, v0) <-- r2(2, v0), r2(v1, v1);
+   }
+   pub struct Inst { p: Prog, pool: Option<ascent::rayon::ThreadPool> }
+   pub fn make(pool: Option<usize>) -> Box<dyn Driver> {
+      let pool = pool.map(|n| ascent::rayon::ThreadPoolBuilder::new().num_threads(n).build().unwrap());
+      let p = match &pool { Some(pl) => pl.install(|| Default::default()), None => Default::default() };
+      Box::new(Inst { p, pool })
+   }
+   impl Driver for Inst {
+      fn load(&mut self, rel: usize, rows: &[Sexp], append: bool) -> Option<()> {
+         match rel {
+         0 => { let v: Vec<(i64,i64,)> = parse_rows(rows)?; if !append { self.p.r0 = Default::default(); } for x in v { self.p.r0.push(x); } },
+         1 => { let v: Vec<(i64,i64,i64,)> = parse_rows(rows)?; if !append { self.p.r1 = Default::default(); } for x in v { self.p.r1.push(x); } },
+         2 => { let v: Vec<(i64,i64,)> = parse_rows(rows)?; if !append { self.p.r2 = Default::default(); } for x in v { self.p.r2.push(x); } },
+         3 => { let v: Vec<(i64,Dual<i64>,)> = parse_rows(rows)?; if !append { self.p.r3 = Default::default(); } for x in v { self.p.r3.push(std::sync::RwLock::new(x)); } },
+         4 => { let v: Vec<(i64,i64,Dual<i64>,)> = parse_rows(rows)?; if !append { self.p.r4 = Default::default(); } for x in v { self.p.r4.push(std::sync::RwLock::new(x)); } },
             _ => return None,
          }
          Some(())
@@ -135,20 +368,21 @@ pub mod w16 {
 }
 
 #[allow(unused, non_snake_case, clippy::all)]
-pub mod f5w_par {
+pub mod w64 {
    use ascent::*;
    use ascent::aggregators::*;
    use ascent::lattice::{Dual, set::Set};
    use crate::common::*;
    ascent_par! {
       pub struct Prog;
-      relation r0(i64, i64, i64);
-      relation r1(i64);
+      relation r0(i64, i64);
+      relation r1(i64, i64, i64);
       lattice r2(i64, i64, Dual<i64>);
-      relation r3(i64, i64);
-      r2(v0, v1, Dual((*v2))) <-- r0(v0, v1, v2);
-      r2(v0, v3, Dual(((v2.0) + (*v4)))) <-- r2(v0, v1, v2), r0(v1, v3, v4);
-      r3(v0, (v21 as i64)) <-- r1(v0), agg v21 = count() in r2((*v0), _, _);
+      r2(v0, v0, Dual((*v0))) <-- r1(v0, v1, v0);
+      r2(v2, v4, v1) <-- r2(0, v0, v1), r1(v2, v3, v4) if ((*v0) < 5);
+      r2(((*v1) + 1), v1, Dual(((v4.0) + 0))) <-- r2(v0, v1, v2), r2(v3, v0, v4), if ((*v1) < 6);
+      r0(v1, v0) <-- r2(v0, v1, v2);
+      r2(v1, v1, v2) <-- r2(v0, v1, v2), r1(v0, v3, v0);
    }
    pub struct Inst { p: Prog, pool: Option<ascent::rayon::ThreadPool> }
    pub fn make(pool: Option<usize>) -> Box<dyn Driver> {
@@ -159,10 +393,9 @@ pub mod f5w_par {
    impl Driver for Inst {
       fn load(&mut self, rel: usize, rows: &[Sexp], append: bool) -> Option<()> {
          match rel {
-         0 => { let v: Vec<(i64,i64,i64,)> = parse_rows(rows)?; if !append { self.p.r0 = Default::default(); } for x in v { self.p.r0.push(x); } },
-         1 => { let v: Vec<(i64,)> = parse_rows(rows)?; if !append { self.p.r1 = Default::default(); } for x in v { self.p.r1.push(x); } },
+         0 => { let v: Vec<(i64,i64,)> = parse_rows(rows)?; if !append { self.p.r0 = Default::default(); } for x in v { self.p.r0.push(x); } },
+         1 => { let v: Vec<(i64,i64,i64,)> = parse_rows(rows)?; if !append { self.p.r1 = Default::default(); } for x in v { self.p.r1.push(x); } },
          2 => { let v: Vec<(i64,i64,Dual<i64>,)> = parse_rows(rows)?; if !append { self.p.r2 = Default::default(); } for x in v { self.p.r2.push(std::sync::RwLock::new(x)); } },
-         3 => { let v: Vec<(i64,i64,)> = parse_rows(rows)?; if !append { self.p.r3 = Default::default(); } for x in v { self.p.r3.push(x); } },
             _ => return None,
          }
          Some(())
@@ -170,11 +403,213 @@ pub mod f5w_par {
       fn run(&mut self) { match &self.pool { Some(pl) => { let p = &mut self.p; pl.install(|| p.run()) }, None => self.p.run() } }
       fn run_here(&mut self) { self.p.run() }
       fn run_timeout(&mut self, k: usize) -> Option<bool> { let _ = k; None }
-      fn dump(&self) -> String { vec![dump_rel(0, self.p.r0.iter().map(|x| x.render()).collect()), dump_rel(1, self.p.r1.iter().map(|x| x.render()).collect()), dump_rel(2, self.p.r2.iter().map(|x| x.read().unwrap().render()).collect()), dump_rel(3, self.p.r3.iter().map(|x| x.render()).collect())].join(" | ") }
+      fn dump(&self) -> String { vec![dump_rel(0, self.p.r0.iter().map(|x| x.render()).collect()), dump_rel(1, self.p.r1.iter().map(|x| x.render()).collect()), dump_rel(2, self.p.r2.iter().map(|x| x.read().unwrap().render()).collect())].join(" | ") }
+      fn iters(&self) -> String { format!("iters {}", self.p.scc_iters.iter().map(|x| x.to_string()).collect::<Vec<_>>().join(" ")) }
+   }
+}
+
+#[allow(unused, non_snake_case, clippy::all)]
+pub mod w72 {
+   use ascent::*;
+   use ascent::aggregators::*;
+   use ascent::lattice::{Dual, set::Set};
+   use crate::common::*;
+   ascent_par! {
+      pub struct Prog;
+      relation r0(i64);
+      relation r1(i64, i64);
+      lattice r2(i64, i64, i64);
+      r2(v0, v0, 4) <-- r0(v0);
+      r2(1, v0, v1) <-- r2(v0, 2, v1), r0(v0);
+      r0(v0) <-- r2(v0, v0, v1);
+      r1(v0, v0) <-- r2(v0, v0, v1), r0(v0);
+   }
+   pub struct Inst { p: Prog, pool: Option<ascent::rayon::ThreadPool> }
+   pub fn make(pool: Option<usize>) -> Box<dyn Driver> {
+      let pool = pool.map(|n| ascent::rayon::ThreadPoolBuilder::new().num_threads(n).build().unwrap());
+      let p = match &pool { Some(pl) => pl.install(|| Default::default()), None => Default::default() };
+      Box::new(Inst { p, pool })
+   }
+   impl Driver for Inst {
+      fn load(&mut self, rel: usize, rows: &[Sexp], append: bool) -> Option<()> {
+         match rel {
+         0 => { let v: Vec<(i64,)> = parse_rows(rows)?; if !append { self.p.r0 = Default::default(); } for x in v { self.p.r0.push(x); } },
+         1 => { let v: Vec<(i64,i64,)> = parse_rows(rows)?; if !append { self.p.r1 = Default::default(); } for x in v { self.p.r1.push(x); } },
+         2 => { let v: Vec<(i64,i64,i64,)> = parse_rows(rows)?; if !append { self.p.r2 = Default::default(); } for x in v { self.p.r2.push(std::sync::RwLock::new(x)); } },
+            _ => return None,
+         }
+         Some(())
+      }
+      fn run(&mut self) { match &self.pool { Some(pl) => { let p = &mut self.p; pl.install(|| p.run()) }, None => self.p.run() } }
+      fn run_here(&mut self) { self.p.run() }
+      fn run_timeout(&mut self, k: usize) -> Option<bool> { let _ = k; None }
+      fn dump(&self) -> String { vec![dump_rel(0, self.p.r0.iter().map(|x| x.render()).collect()), dump_rel(1, self.p.r1.iter().map(|x| x.render()).collect()), dump_rel(2, self.p.r2.iter().map(|x| x.read().unwrap().render()).collect())].join(" | ") }
+      fn iters(&self) -> String { format!("iters {}", self.p.scc_iters.iter().map(|x| x.to_string()).collect::<Vec<_>>().join(" ")) }
+   }
+}
+
+#[allow(unused, non_snake_case, clippy::all)]
+pub mod w80 {
+   use ascent::*;
+   use ascent::aggregators::*;
+   use ascent::lattice::{Dual, set::Set};
+   use crate::common::*;
+   ascent_par! {
+      pub struct Prog;
+      relation r0(i64);
+      relation r1(i64, i64);
+      relation r2(i64, i64, i64);
+      relation r3(i64);
+      relation r4(i64, i64);
+      relation r5(i64);
+      r2(v1, v0, 3) <-- r1(v0, v1);
+      r2(v2, v1, v3) <-- if let Some(v0) = Some(2), r2(v1, (v0 + 1), v2), r2(v3, v2, ((*v2) + 0));
+      r2(v0, v1, v2) <-- r1(v0, v1), r1(((*v0) + 1), v2);
+      r2(v0, v1, v2) <-- r1(v0, v1), r1(v0, v0), r1(v1, v2);
+      r1(v2, v1) <-- r1(v0, v1), r0(v2);
+      r2(v0, v0, v0) <-- r0(v0) if ((*v0) != 5), r0(0);
+      r2(v3, v2, ((*v2) + 1)) <-- r2(v0, v1, 2), r1(v2, v3), if ((*v2) < 6);
+      r3(v1) <-- r1(v0, v1), r2(v1, v32, v32), agg v21 = count() in r2(_, (*v1), _);
+      r4(v0, 1) <-- r0(v0), agg () = not() in r3((*v0));
+      r5(v1) <-- r2(v0, v1, v2), r0(v1), agg v21 = min(v20) in r2((*v2), v20, (*v0));
+   }
+   pub struct Inst { p: Prog, pool: Option<ascent::rayon::ThreadPool> }
+   pub fn make(pool: Option<usize>) -> Box<dyn Driver> {
+      let pool = pool.map(|n| ascent::rayon::ThreadPoolBuilder::new().num_threads(n).build().unwrap());
+      let p = match &pool { Some(pl) => pl.install(|| Default::default()), None => Default::default() };
+      Box::new(Inst { p, pool })
+   }
+   impl Driver for Inst {
+      fn load(&mut self, rel: usize, rows: &[Sexp], append: bool) -> Option<()> {
+         match rel {
+         0 => { let v: Vec<(i64,)> = parse_rows(rows)?; if !append { self.p.r0 = Default::default(); } for x in v { self.p.r0.push(x); } },
+         1 => { let v: Vec<(i64,i64,)> = parse_rows(rows)?; if !append { self.p.r1 = Default::default(); } for x in v { self.p.r1.push(x); } },
+         2 => { let v: Vec<(i64,i64,i64,)> = parse_rows(rows)?; if !append { self.p.r2 = Default::default(); } for x in v { self.p.r2.push(x); } },
+         3 => { let v: Vec<(i64,)> = parse_rows(rows)?; if !append { self.p.r3 = Default::default(); } for x in v { self.p.r3.push(x); } },
+         4 => { let v: Vec<(i64,i64,)> = parse_rows(rows)?; if !append { self.p.r4 = Default::default(); } for x in v { self.p.r4.push(x); } },
+         5 => { let v: Vec<(i64,)> = parse_rows(rows)?; if !append { self.p.r5 = Default::default(); } for x in v { self.p.r5.push(x); } },
+            _ => return None,
+         }
+         Some(())
+      }
+      fn run(&mut self) { match &self.pool { Some(pl) => { let p = &mut self.p; pl.install(|| p.run()) }, None => self.p.run() } }
+      fn run_here(&mut self) { self.p.run() }
+      fn run_timeout(&mut self, k: usize) -> Option<bool> { let _ = k; None }
+      fn dump(&self) -> String { vec![dump_rel(0, self.p.r0.iter().map(|x| x.render()).collect()), dump_rel(1, self.p.r1.iter().map(|x| x.render()).collect()), dump_rel(2, self.p.r2.iter().map(|x| x.render()).collect()), dump_rel(3, self.p.r3.iter().map(|x| x.render()).collect()), dump_rel(4, self.p.r4.iter().map(|x| x.render()).collect()), dump_rel(5, self.p.r5.iter().map(|x| x.render()).collect())].join(" | ") }
+      fn iters(&self) -> String { format!("iters {}", self.p.scc_iters.iter().map(|x| x.to_string()).collect::<Vec<_>>().join(" ")) }
+   }
+}
+
+#[allow(unused, non_snake_case, clippy::all)]
+pub mod w88 {
+   use ascent::*;
+   use ascent::aggregators::*;
+   use ascent::lattice::{Dual, set::Set};
+   use crate::common::*;
+   ascent_par! {
+      pub struct Prog;
+      relation r0(i64, i64);
+      relation r1(i64, i64);
+      relation r2(i64, i64);
+      relation r3(i64, i64);
+      relation r4(i64, i64);
+      relation r5(i64, i64, i64);
+      relation r6(i64);
+      relation r7(i64);
+      relation r8(i64, i64);
+      relation r9(i64);
+      r2((v0 + 1), v1) <-- if let Some(v0) = Some(4), r1((v0 + 0), v0), if let Some(v1) = None::<i64>, if (v0 < 6), if (v1 <= 6);
+      r3(v0, (v0 + 1)) <-- if let Some(v0) = Some(3), r1(v0, v1), if (v0 <= 6), if (v0 < 6);
+      r4(((*v1) + 1), v2) <-- r2(v0, 1), r3(0, v1) if ((*v1) <= 4), let v2 = (*v0), if ((*v1) < 6), if (v2 <= 6);
+      r2(v0, v1) <-- for v9 in 0..3, r1(v0, v1), r1(v9, v1);
+      r2(v0, v1) <-- r1(v0, v1) if ((*v0) < 4), r2(v1, v2) if ((*v2) != (*v1));
+      r4(v0, (v0 + 1)) <-- for v0 in [0, 2], if (v0 < 6);
+      r6(v2) <-- r5(v0, v1, v2), r5(v2, v1, v2), r0(v33, v2), agg v21 = min(v20) in r3(_, v20);
+      r7(v34) <-- r5(v0, v1, v2), r1(v33, v2), r3(v34, v33), agg () = not() in r3((*v34), (*v1));
+      r8(v33, (v21 as i64)) <-- r5(v0, v1, v2), r2(v33, v1), r1(v1, v33), agg v21 = count() in r5((*v1), (*v0), _);
+      r9(v0) <-- r2(v0, v1), agg v21 = count() in r6(3);
+   }
+   pub struct Inst { p: Prog, pool: Option<ascent::rayon::ThreadPool> }
+   pub fn make(pool: Option<usize>) -> Box<dyn Driver> {
+      let pool = pool.map(|n| ascent::rayon::ThreadPoolBuilder::new().num_threads(n).build().unwrap());
+      let p = match &pool { Some(pl) => pl.install(|| Default::default()), None => Default::default() };
+      Box::new(Inst { p, pool })
+   }
+   impl Driver for Inst {
+      fn load(&mut self, rel: usize, rows: &[Sexp], append: bool) -> Option<()> {
+         match rel {
+         0 => { let v: Vec<(i64,i64,)> = parse_rows(rows)?; if !append { self.p.r0 = Default::default(); } for x in v { self.p.r0.push(x); } },
+         1 => { let v: Vec<(i64,i64,)> = parse_rows(rows)?; if !append { self.p.r1 = Default::default(); } for x in v { self.p.r1.push(x); } },
+         2 => { let v: Vec<(i64,i64,)> = parse_rows(rows)?; if !append { self.p.r2 = Default::default(); } for x in v { self.p.r2.push(x); } },
+         3 => { let v: Vec<(i64,i64,)> = parse_rows(rows)?; if !append { self.p.r3 = Default::default(); } for x in v { self.p.r3.push(x); } },
+         4 => { let v: Vec<(i64,i64,)> = parse_rows(rows)?; if !append { self.p.r4 = Default::default(); } for x in v { self.p.r4.push(x); } },
+         5 => { let v: Vec<(i64,i64,i64,)> = parse_rows(rows)?; if !append { self.p.r5 = Default::default(); } for x in v { self.p.r5.push(x); } },
+         6 => { let v: Vec<(i64,)> = parse_rows(rows)?; if !append { self.p.r6 = Default::default(); } for x in v { self.p.r6.push(x); } },
+         7 => { let v: Vec<(i64,)> = parse_rows(rows)?; if !append { self.p.r7 = Default::default(); } for x in v { self.p.r7.push(x); } },
+         8 => { let v: Vec<(i64,i64,)> = parse_rows(rows)?; if !append { self.p.r8 = Default::default(); } for x in v { self.p.r8.push(x); } },
+         9 => { let v: Vec<(i64,)> = parse_rows(rows)?; if !append { self.p.r9 = Default::default(); } for x in v { self.p.r9.push(x); } },
+            _ => return None,
+         }
+         Some(())
+      }
+      fn run(&mut self) { match &self.pool { Some(pl) => { let p = &mut self.p; pl.install(|| p.run()) }, None => self.p.run() } }
+      fn run_here(&mut self) { self.p.run() }
+      fn run_timeout(&mut self, k: usize) -> Option<bool> { let _ = k; None }
+      fn dump(&self) -> String { vec![dump_rel(0, self.p.r0.iter().map(|x| x.render()).collect()), dump_rel(1, self.p.r1.iter().map(|x| x.render()).collect()), dump_rel(2, self.p.r2.iter().map(|x| x.render()).collect()), dump_rel(3, self.p.r3.iter().map(|x| x.render()).collect()), dump_rel(4, self.p.r4.iter().map(|x| x.render()).collect()), dump_rel(5, self.p.r5.iter().map(|x| x.render()).collect()), dump_rel(6, self.p.r6.iter().map(|x| x.render()).collect()), dump_rel(7, self.p.r7.iter().map(|x| x.render()).collect()), dump_rel(8, self.p.r8.iter().map(|x| x.render()).collect()), dump_rel(9, self.p.r9.iter().map(|x| x.render()).collect())].join(" | ") }
+      fn iters(&self) -> String { format!("iters {}", self.p.scc_iters.iter().map(|x| x.to_string()).collect::<Vec<_>>().join(" ")) }
+   }
+}
+
+#[allow(unused, non_snake_case, clippy::all)]
+pub mod w96 {
+   use ascent::*;
+   use ascent::aggregators::*;
+   use ascent::lattice::{Dual, set::Set};
+   use crate::common::*;
+   ascent_par! {
+      pub struct Prog;
+      relation r0(i64, i64);
+      relation r1(i64, i64);
+      relation r2(i64, i64, i64);
+      relation r3(i64);
+      relation r4(i64);
+      relation r5(i64);
+      r2(v0, v0, v0) <-- let v0 = 3, r0(3, v0), if (v0 <= 6);
+      r2(v1, v1, ((*v0) + 1)) <-- r2(2, v0, 2) if ((*v0) < 4) let v1 = ((*v0) + 1), r0(v1, v0), if (v1 <= 6), if ((*v0) < 6);
+      r1(v0, v1) <-- for v9 in 0..3, r0(v0, v1), r0(v9, v1);
+      r2(1, 3, v0) <-- let v0 = 2, r0(v1, v0), r1(v2, v3), if (v0 <= 6);
+      r2(v2, v1, 3) <-- r2(2, v0, v1), r2(v2, v3, 0);
+      r3(v35) <-- r0(v0, v1), r2(v32, v33, v34), r0(v35, v32), agg v21 = sum(v20) in r0(v20, _);
+      r4(v1) <-- r1(v0, v1), agg () = not() in r3((*v1));
+      r5(v32) <-- r1(v0, v1), r1(v32, v0), r1(v33, v34), agg v21 = count() in r2((*v34), (*v32), (*v33));
+   }
+   pub struct Inst { p: Prog, pool: Option<ascent::rayon::ThreadPool> }
+   pub fn make(pool: Option<usize>) -> Box<dyn Driver> {
+      let pool = pool.map(|n| ascent::rayon::ThreadPoolBuilder::new().num_threads(n).build().unwrap());
+      let p = match &pool { Some(pl) => pl.install(|| Default::default()), None => Default::default() };
+      Box::new(Inst { p, pool })
+   }
+   impl Driver for Inst {
+      fn load(&mut self, rel: usize, rows: &[Sexp], append: bool) -> Option<()> {
+         match rel {
+         0 => { let v: Vec<(i64,i64,)> = parse_rows(rows)?; if !append { self.p.r0 = Default::default(); } for x in v { self.p.r0.push(x); } },
+         1 => { let v: Vec<(i64,i64,)> = parse_rows(rows)?; if !append { self.p.r1 = Default::default(); } for x in v { self.p.r1.push(x); } },
+         2 => { let v: Vec<(i64,i64,i64,)> = parse_rows(rows)?; if !append { self.p.r2 = Default::default(); } for x in v { self.p.r2.push(x); } },
+         3 => { let v: Vec<(i64,)> = parse_rows(rows)?; if !append { self.p.r3 = Default::default(); } for x in v { self.p.r3.push(x); } },
+         4 => { let v: Vec<(i64,)> = parse_rows(rows)?; if !append { self.p.r4 = Default::default(); } for x in v { self.p.r4.push(x); } },
+         5 => { let v: Vec<(i64,)> = parse_rows(rows)?; if !append { self.p.r5 = Default::default(); } for x in v { self.p.r5.push(x); } },
+            _ => return None,
+         }
+         Some(())
+      }
+      fn run(&mut self) { match &self.pool { Some(pl) => { let p = &mut self.p; pl.install(|| p.run()) }, None => self.p.run() } }
+      fn run_here(&mut self) { self.p.run() }
+      fn run_timeout(&mut self, k: usize) -> Option<bool> { let _ = k; None }
+      fn dump(&self) -> String { vec![dump_rel(0, self.p.r0.iter().map(|x| x.render()).collect()), dump_rel(1, self.p.r1.iter().map(|x| x.render()).collect()), dump_rel(2, self.p.r2.iter().map(|x| x.render()).collect()), dump_rel(3, self.p.r3.iter().map(|x| x.render()).collect()), dump_rel(4, self.p.r4.iter().map(|x| x.render()).collect()), dump_rel(5, self.p.r5.iter().map(|x| x.render()).collect())].join(" | ") }
       fn iters(&self) -> String { format!("iters {}", self.p.scc_iters.iter().map(|x| x.to_string()).collect::<Vec<_>>().join(" ")) }
    }
 }
 
 fn main() {
-   common::main_loop(&[("w0", w0::make as common::Factory), ("w8", w8::make as common::Factory), ("w16", w16::make as common::Factory), ("f5w_par", f5w_par::make as common::Factory)]);
+   common::main_loop(&[("w0", w0::make as common::Factory), ("w8", w8::make as common::Factory), ("w16", w16::make as common::Factory), ("w24", w24::make as common::Factory), ("w32", w32::make as common::Factory), ("w40", w40::make as common::Factory), ("w48", w48::make as common::Factory), ("w56", w56::make as common::Factory), ("w64", w64::make as common::Factory), ("w72", w72::make as common::Factory), ("w80", w80::make as common::Factory), ("w88", w88::make as common::Factory), ("w96", w96::make as common::Factory)]);
 }
